@@ -17,7 +17,7 @@ ASSUMPTIONS = ["handlers return at once or after 33 / 66 ms (below EMPTY_ACK_DEL
 _REQ = {"response_matches_model": 2000, "handler_body": 300, "continue_echo": 500, "incomplete_408": 100, "block2_slice": 300, "expiry": 40, "timeoutdict_tick": 20, "continuation_after_completion": 120, "continuation_during_handler": 40, "slow_handler_body": 300, "overlapping_block0": 150, "later_block_after_overlap": 400, "later_block_older_finished_later": 200, "later_block_while_rendering": 40}
 REQUIRED_MONITORS = {"quick": _REQ, "thorough": {k: v * 20 for k, v in _REQ.items()}}
 
-UP = ["inorder", "inorder", "restart", "restart-single", "repeat", "skip", "lastfirst", "wrongsize", "oversize-final", "unknown", "szx-change", "after-final", "during-handler", "during-handler"]
+UP = ["inorder", "inorder", "restart", "restart-single", "repeat", "skip", "lastfirst", "wrongsize", "oversize-final", "unknown", "szx-change", "szx-grow", "szx-grow", "after-final", "during-handler", "during-handler"]
 DOWN = ["none", "inorder", "inorder", "beyond", "szx-change", "repeat", "skip", "overlap", "overlap"]
 DELAYS = [0.033, 0.066]  # how long a slow handler awaits: below EMPTY_ACK_DELAY, never a multiple of the 10 ms request spacing
 SETTLE = 0.1  # pause after an overlap episode: every handler has returned before the next request is sent
@@ -134,6 +134,19 @@ def gen_flow(r, fid):
             rest = body[size:]
             sub = [rest[i : i + half] for i in range(0, len(rest), half)]
             seq = [blk(0)] + [{"b1": (2 + i, i < len(sub) - 1, szx - 1), "payload": p} for i, p in enumerate(sub)]
+        elif up == "szx-grow" and last >= 2 and szx <= 5:
+            # after k blocks continue with blocks of twice the size: where k is even the first of them extends the
+            # assembly exactly; where it is odd, the block whose number is floor(offset / new size) overlaps what has
+            # been assembled (not a continuation: 4.08), and the upload then goes on in the old size
+            k = r.choice([1, 2, 3]) if last >= 3 else r.choice([1, 2])
+            big = 2 * size
+            if k % 2 == 0:
+                rest = body[k * size :]
+                sub = [rest[i : i + big] for i in range(0, len(rest), big)] or [b""]
+                seq = [blk(i) for i in range(k)] + [{"b1": (k // 2 + i, i < len(sub) - 1, szx + 1), "payload": p_} for i, p_ in enumerate(sub)]
+            else:
+                lo = (k // 2) * big
+                seq = [blk(i) for i in range(k)] + [{"b1": (k // 2, True, szx + 1), "payload": pattern(b"O%d-" % fid, big) if r.random() < 0.5 else body[lo : lo + big].ljust(big, b"o")}] + [blk(i) for i in range(k, last + 1)]
         elif up == "after-final":
             # the upload is complete and its body delivered (the handler has returned: at once, or after a while);
             # then one or two more blocks arrive that claim to continue it
